@@ -8,12 +8,15 @@ TRUNC = {"des_crypt": 8, "django_des_crypt": 8, "crypt16": 16, "bcrypt": 72, "lm
 
 def canon(bname, s, ctx=None, ident=None):
     ctx = ctx or {}
+    # DES family: 7 bits per byte, NUL padding to the block size (a trailing byte whose low 7 bits are 0 equals the padding)
+    def pad(b, n):
+        return b + b"\x00" * ((-len(b)) % n if len(b) else n)
     if bname in ("des_crypt", "django_des_crypt"):
-        return bytes(c & 0x7F for c in s[:8])
+        return pad(bytes(c & 0x7F for c in s[:8]), 8)
     if bname in ("bsdi_crypt", "bigcrypt"):
-        return bytes(c & 0x7F for c in s)
+        return pad(bytes(c & 0x7F for c in s), 8)
     if bname == "crypt16":
-        return bytes(c & 0x7F for c in s[:16])
+        return pad(bytes(c & 0x7F for c in s[:16]), 16)
     if bname == "bcrypt":
         if ident in ("$2$", "2"):
             return (s * 72)[:72] if s else b""
